@@ -169,6 +169,7 @@ var faultPats = []struct {
 	{regexp.MustCompile(`^for statement (init|limit|step) must be a number`), 6},
 	{regexp.MustCompile(`^table index is (nil|NaN)`), 6},
 	{regexp.MustCompile(`^bad argument`), 6},
+	{regexp.MustCompile(`^cannot set metatable to a nil object`), 6},
 	{regexp.MustCompile(`^__len undefined`), 7},
 	{regexp.MustCompile(`^can not resume a dead thread`), 8},
 	{regexp.MustCompile(`^can not resume a running thread`), 9},
